@@ -32,6 +32,27 @@ func ParseURLEncoded(input string) []Pair {
 	return out
 }
 
+// ParseURLEncodedRaw is ParseURLEncoded without the final UTF-8 decode: names and values keep
+// the raw decoded bytes (what an implementation that works on Go strings stores).
+func ParseURLEncodedRaw(input string) []Pair {
+	var out []Pair
+	for _, seq := range bytes.Split([]byte(input), []byte("&")) {
+		if len(seq) == 0 {
+			continue
+		}
+		var name, value []byte
+		if i := bytes.IndexByte(seq, '='); i >= 0 {
+			name, value = seq[:i], seq[i+1:]
+		} else {
+			name = seq
+		}
+		name = bytes.ReplaceAll(name, []byte("+"), []byte(" "))
+		value = bytes.ReplaceAll(value, []byte("+"), []byte(" "))
+		out = append(out, Pair{string(PercentDecode(name)), string(PercentDecode(value))})
+	}
+	return out
+}
+
 func urlencodedKeep(b byte) bool {
 	return b == '*' || b == '-' || b == '.' || b == '_' ||
 		(b >= '0' && b <= '9') || (b >= 'A' && b <= 'Z') || (b >= 'a' && b <= 'z')
